@@ -201,7 +201,7 @@ struct Exec {
     if constexpr (FAM == RU && VINE) {
       // known finding C06-KF3 (same root cause as C09-KF3): swapped column objects keep their own column-index member, so entries created
       // after a vine swap carry the other column's index and the rows list wrong / colliding column indices
-      if (had_swap) { r.count("probe.ru_rows_after_swap"); if (r.kf("C06-KF3")) return; }
+      if (had_swap) r.count("probe.ru_rows_after_swap");
     }
     const int n = F.size();
     std::vector<Vec> cols(n); std::vector<unsigned> midx(n);
